@@ -88,7 +88,7 @@ func check(c Case, r *ev.Rec) error {
 
 var weighted = lib.WeightedNames()
 
-var prop = &ev.Prop[Case]{Sub: "roundtrip", Quick: 400000, Thorough: 12000000,
+var prop = &ev.Prop[Case]{Sub: "roundtrip", Quick: 800000, Thorough: 12000000,
 	Gen:   func(t *rapid.T) Case { return gen.InputG(t, weighted) },
 	Check: check}
 
